@@ -254,7 +254,7 @@ impl RefModel {
         self.note_m(s);
         let n = self.n();
         self.w.push_back(s);
-        while self.w.len() > n + 1 {
+        while self.w.len() > n.saturating_add(1) {
             self.w.pop_front();
         }
     }
@@ -304,7 +304,7 @@ impl RefModel {
         let mut out = RefOut { n: 1, v: [Dd::ZERO; 3], c: [1.0; 3], degenerate: false, near_tie: false, m: self.m, scale: 1.0, t };
         // keep last n+1 of the scalar series
         self.w.push_back(s);
-        while self.w.len() > n + 1 {
+        while self.w.len() > n.saturating_add(1) {
             self.w.pop_front();
         }
         // high / low / tp windows for bar-reading kinds
@@ -325,7 +325,7 @@ impl RefModel {
                 self.wl.pop_front();
                 self.bars_valid.pop_front();
             }
-            while self.wtp.len() > n + 1 {
+            while self.wtp.len() > n.saturating_add(1) {
                 self.wtp.pop_front();
             }
         }
@@ -430,7 +430,7 @@ impl RefModel {
                 }
             }
             Roc => {
-                let prevv = if t > n { self.w[0] } else { self.w[0] }; // w holds at most n+1 values: front is x_{t-n}, or x_1 while warming up
+                let prevv = self.w[0]; // w holds at most n+1 values: front is x_{t-n}, or x_1 while warming up
                 out.scale = 100.0;
                 if prevv == 0.0 {
                     out.degenerate = true;
